@@ -123,6 +123,17 @@ ReplaceOp(i, f) ==
         /\ Step([op |-> "replace", t |-> i, f |-> f], [kind |-> "len", val |-> NRows(t)])
   /\ nrep' = nrep + 1 /\ UNCHANGED err
 
+\* t.f = values: explicit assignment changes that one table in place and nothing else                 __setattr__ :136-141
+AssignOp(i, f) ==
+  /\ CanObs
+  /\ LET t   == pool[i]
+         col == [j \in DOMAIN t.rows |-> <<"n", nrep + 1, j>>]
+     IN /\ pool' = [pool EXCEPT ![i] = [t EXCEPT !.overlay = Ext(t.overlay, f, col),
+                                                 !.cache = [h \in (DOMAIN t.cache) \ {f} |-> t.cache[h]]]]
+        /\ ghost' = [ghost EXCEPT ![i] = [ghost[i] EXCEPT ![f] = col]]
+        /\ Step([op |-> "assign", t |-> i, f |-> f], [kind |-> "len", val |-> NRows(t)])
+  /\ nrep' = nrep + 1 /\ UNCHANGED err
+
 ConcatOp(i, k) ==
   /\ Room
   /\ LET t == pool[i]
@@ -172,8 +183,9 @@ Get_     == "get" \in Ops /\ \E i \in DOMAIN pool : \E f \in Fields : GetOp(i, f
 Replace_ == "replace" \in Ops /\ \E i \in DOMAIN pool : \E f \in Fields : ReplaceOp(i, f)
 Index_   == "index" \in Ops /\ \E i \in DOMAIN pool : \E kind \in Sels : IndexOp(i, kind)
 Concat_  == "concat" \in Ops /\ \E i \in DOMAIN pool : \E k \in DOMAIN pool : ConcatOp(i, k)
+Assign_  == "assign" \in Ops /\ \E i \in DOMAIN pool : \E f \in Fields : AssignOp(i, f)
 Row_     == "row" \in Ops /\ \E i \in DOMAIN pool : \E j \in {k \in {1, NRows(pool[i])} : k >= 1 /\ k <= NRows(pool[i])} : \E form \in {"int", "npint"} : RowOp(i, j, form)
-Next == Len_ \/ ToRows_ \/ Write_ \/ Get_ \/ Replace_ \/ Index_ \/ Concat_ \/ Row_
+Next == Len_ \/ ToRows_ \/ Write_ \/ Get_ \/ Replace_ \/ Index_ \/ Concat_ \/ Row_ \/ Assign_
 
 Spec == Init /\ [][Next]_vars
 
@@ -189,8 +201,10 @@ Aligned == \A i \in DOMAIN pool :
 PassThrough == \A i \in DOMAIN pool : BytesL1(pool[i]) = BytesL0(pool[i])
 ContigSound == \A i \in DOMAIN pool : pool[i].contig => pool[i].rows = [j \in DOMAIN pool[i].buf |-> j]
 \* C20 (frame): no operation changes what an existing table reads or writes
-Frame == [][\A i \in DOMAIN pool : /\ \A f \in Fields : LazyGet(pool'[i], f) = LazyGet(pool[i], f)
-                                   /\ BytesL0(pool'[i]) = BytesL0(pool[i])
-                                   /\ ghost'[i] = ghost[i]]_vars
+\* (an explicit assignment t.f = values may change table t, and only t)
+Assigned == IF prog' # prog /\ prog'[Len(prog')].op = "assign" THEN {prog'[Len(prog')].t} ELSE {}
+Frame == [][\A i \in (DOMAIN pool) \ Assigned : /\ \A f \in Fields : LazyGet(pool'[i], f) = LazyGet(pool[i], f)
+                                                /\ BytesL0(pool'[i]) = BytesL0(pool[i])
+                                                /\ ghost'[i] = ghost[i]]_vars
 DepthBound == Len(prog) <= MaxDepth
 ==============================================================================
